@@ -67,6 +67,11 @@ func (s *Solver) start() error {
 	}
 	s.in = in
 	s.out = bufio.NewReaderSize(out, 1<<16)
+	if p := os.Getenv("GOSX_SMTLOG"); p != "" && s.log == nil {
+		if f, err := os.CreateTemp("", p+"-*.smt2"); err == nil {
+			s.log = f
+		}
+	}
 	s.lines = make(chan string, 1024)
 	s.broken = false
 	go func(r *bufio.Reader, ch chan string) {
